@@ -5,6 +5,8 @@ import random
 from rv.checks import common
 
 SEMIRINGS = ["Float", "Float", "Boolean", "MaxTimes", "Real", "Q", "Poly"]
+SUPPORT_PRESERVING = {"trim", "cotrim", "binarize", "separate_start", "separate_terminals", "unaryremove", "unarycycleremove",
+                      "renumber", "rename", "unfold"}
 
 
 def transformations(cfg, rng):
@@ -65,6 +67,12 @@ def gen_case(rng, spec):
             tot[(h, tuple(b))] = tot.get((h, tuple(b)), 0) + w
         if any(v == 0 for v in tot.values()):
             g = dict(g, rules=[[abs(w), h, b] for w, h, b in g["rules"]])
+    if R in ("Float", "Real", "Q", "MaxTimes") and rng.random() < 0.15:
+        from fractions import Fraction as Fr
+
+        # a few tiny (but non-zero) rule weights: nothing may be dropped "for robustness" by a transformation
+        sc = Fr(1, 2 ** rng.choice([45, 60]))
+        g = dict(g, rules=[[(w * sc if rng.random() < 0.3 else w), h, b] for w, h, b in g["rules"]])
     return {
         "g": {k: g[k] for k in ("S", "V", "rules")},
         "R": R,
@@ -249,6 +257,8 @@ def run_case(case, ctx, mode):
             continue
         ex2 = exact and bool(getattr(O2.alg, "exact", False))
         nbad = 0
+        base_name = name.split("(")[0]
+        support_lost = False
         for x in strings:
             try:
                 w2 = O2.weight(x)
@@ -259,9 +269,14 @@ def run_case(case, ctx, mode):
             good = lib.same(R, h, w, exact=ex2, tol=1e-8)
             if good and O.isz(w) and not O2.isz(w2) and not signed:
                 good = False
+            # support: a string with non-zero weight keeps a non-zero weight (however small) under transformations
+            # that do not go through a truncated fixed point (the nullary ones do: null weights < 1e-12 may vanish)
+            if good and not O.isz(w) and O2.isz(w2) and not signed and base_name in SUPPORT_PRESERVING and bool(getattr(O.alg, "exact", False)):
+                good = False
+                support_lost = True
             if not good:
                 nbad += 1
-            ctx.check(api, good, f"{name.split('(')[0]}/language-changed", dict(c2, x=list(x)),
+            ctx.check(api, good, f"{name.split('(')[0]}/" + ("support-lost" if support_lost else "language-changed"), dict(c2, x=list(x)),
                       {"x": list(x), "weight_under_output_rules": h, "weight_under_input_rules": lib.want_value(R, w),
                        "out_rules": [[r.w, r.head, list(r.body)] for r in out.rules][:30], "out_S": out.S})
             if nbad >= 2:
